@@ -618,6 +618,14 @@ def positive_controls(chk, D, rules=("SWAPSYM", "GAPSHIFT", "DISTGUARD")):
             chk.analysis_broken("STALEREP: the positive control fixture::unique_copy_bad was not reported (%s)" % (rb,))
         if rg is None or rg:
             chk.analysis_broken("STALEREP: the negative control fixture::unique_copy_good was not proved (%s)" % (rg,))
+    if "PREVBOUND" in rules:
+        b, g = one("exchange_bad"), one("exchange_good")
+        rb = check_prev_bound(b) if b else None
+        rg = check_prev_bound(g) if g else None
+        if not rb:
+            chk.analysis_broken("PREVBOUND: the positive control fixture::exchange_bad was not reported (%s)" % (rb,))
+        if rg is None or rg:
+            chk.analysis_broken("PREVBOUND: the negative control fixture::exchange_good was not proved (%s)" % (rg,))
     if "DISTGUARD" in rules:
         b, g = one("search_bad"), one("search_good")
         rb = check_dist_guard(b) if b else None
@@ -1241,4 +1249,87 @@ def refq_move_area(chk, db, prefixes, rule="REFQMOVE"):
                           "%s: the `&&`-qualified accessor hands `%s` on without etl::move: the sub-object of an expiring object is "
                           "given out as an lvalue, so a move from `std::move(obj)` copies and a visitor sees T& instead of T&&"
                           % (astx.loc(f, node), astx.show(node, 30)), {"where": astx.loc(f)})
+    return n
+
+
+# ---- PREVBOUND: "one before the end" is a loop bound only for a non-empty range -------------------------------------------------
+def check_prev_bound(f):
+    """`auto const back = prev(last); for (i = first; i != back; ++i)`: for an empty range `back` lies in front of `first`, and
+    an inequality test never meets it (an ordering test `i < back` would). Such a loop needs `first != last` on its path.
+    returns None | list of (loop, bound name)"""
+    if f.get("body") is None:
+        return None
+    pairs = range_pairs(f)
+    if not pairs:
+        return None
+    ends = dict((e, b) for b, e in pairs.items())
+    bounds = {}
+    for st in astx.walk_stmts(f["body"]):
+        if st.get("k") == "decl":
+            for v in st["vars"]:
+                i0 = astx.strip_casts(v.get("init")) if v.get("init") is not None else None
+                if i0 is None:
+                    continue
+                if i0.get("k") == "call" and astx.callee(i0)[0] == "prev" and len(i0["a"]) == 1 and ref_name(i0["a"][0]) in ends:
+                    bounds[v["n"]] = ref_name(i0["a"][0])
+                if i0.get("k") == "bin" and i0["op"] == "-" and ref_name(i0["l"]) in ends:
+                    try:
+                        if astx.int_value(astx.strip_casts(i0["r"])) == 1:
+                            bounds[v["n"]] = ref_name(i0["l"])
+                    except Exception:
+                        pass
+    if not bounds:
+        return None
+    out = []
+    subject = False
+    from .arith import atoms as _atoms
+    for lp in [st for st in astx.walk_stmts(f["body"]) if st.get("k") in ("for", "while") and st.get("c") is not None]:
+        c = astx.strip_casts(lp["c"])
+        if c is None or c.get("k") != "bin" or c["op"] != "!=":
+            continue
+        bn = None
+        for a, b in ((c["l"], c["r"]), (c["r"], c["l"])):
+            if ref_name(b) in bounds and ref_name(a):
+                bn = ref_name(b)
+        if bn is None:
+            continue
+        subject = True
+        end = bounds[bn]
+        begin = ends[end]
+        dominated = True
+        for p in SP.paths(f["body"]):
+            known = False
+            reached = False
+            for ev in p:
+                if ev[0] == "cond" and ev[1] is lp["c"]:
+                    reached = True
+                    break
+                if ev[0] == "cond":
+                    for op, l, r in _atoms(ev[1], ev[2]):
+                        if op == "!=" and {ref_name(l), ref_name(r)} == {begin, end}:
+                            known = True
+            if reached and not known:
+                dominated = False
+        if not dominated:
+            out.append((lp, bn))
+    return out if subject else None
+
+
+def prev_bound_area(chk, db, prefixes, rule="PREVBOUND"):
+    n = 0
+    for f in db.funcs:
+        if f.get("body") is None or not any(f["file"].startswith(p) for p in prefixes):
+            continue
+        r = check_prev_bound(f)
+        if r is None:
+            continue
+        n += 1
+        construct = astx.sig(f)
+        chk.instance(rule)
+        chk.obligation(rule, construct, not r)
+        for lp, bn in r[:1]:
+            chk.violation(rule, construct, "bound-in-front-of-an-empty-range",
+                          "%s: the loop runs until its cursor meets `%s`, the position one before the end; for an empty range that "
+                          "position lies in front of the begin and `!=` never meets it: elements outside the range are compared and "
+                          "swapped" % (astx.loc(f, lp), bn), {"where": astx.loc(f)})
     return n
